@@ -151,9 +151,8 @@ def r4_r5_r7(idx, rep):
             has_y = any(isinstance(x, ast.Yield) for x in ast.walk(n))
             rep.check(not has_y, "R4", f"{fi.file}::CsvPath.next yield outside try/with", "a yield inside try/finally or with runs cleanup when the generator is abandoned", K.where(fi, n))
     # finalize: freezes and clears caches
-    ff = idx.method("CsvPath", "finalize")
-    src = unparse(ff.node)
-    rep.check("self._freeze_path = True" in src, "R4", f"{ff.file}::CsvPath.finalize freezes the path", "", K.where(ff, ff.node))
+    ff, ps = K.sym_result(idx, "CsvPath", "finalize", domains={"self.matcher": [None]}, store={"self._freeze_path": False})
+    rep.check(len(ps) == 1 and ps[0].final_store.get("self._freeze_path") is True, "R4", f"{ff.file}::CsvPath.finalize freezes the path", "", K.where(ff, ff.node))
 
 
 def r6(idx, rep):
